@@ -1,12 +1,12 @@
 SPECIFICATION Spec
 CONSTANTS
   Dialect = "code"
-  TokLeaves = {"a", "IDENT", ","}
+  TokLeaves = {"a", ","}
   DocDepth = 3
   SubDepth = 0
   Wide = FALSE
   Slim = TRUE
-  Alphabet = {"a", "c", ","}
+  Alphabet = {"a", ",", "@"}
   MaxInput = 2
 INVARIANTS TypeOK StackDistinct Consumes Bounded NoHang RejectSound Export
 
